@@ -47,6 +47,15 @@ static void handler(void *c)
 	r->handled++;
 	r->handler_begin = ++seq;
 	sx_cover("raw.handler-ran");
+	if (sx_opt("unreg", 0) && sx_choose(2)) {
+		/* C01: unregister and free from inside the handler */
+		sx_cover("raw.unregister-in-handler");
+		iv_event_raw_unregister(r->ev);
+		r->registered = 0;
+		free(r->ev);
+		r->ev = NULL;
+		return;
+	}
 	if (P_handler_posts > 0) {
 		/* a post that arrives while the handler is running must cause another run */
 		P_handler_posts--;
